@@ -531,6 +531,123 @@ theorem autocast_dict_stale_none_counterexample :
 
 end fields
 
+
+/-! ### 5. indexing and indexed assignment of a tensorclass: non-tensor fields survive -/
+
+section items
+variable {TD V : Type} (fields : List String) (keys : TD → List String)
+
+/-- well-formedness for an arbitrary tensordict type: every declared field lives in exactly one of the two dicts -/
+structure WFk (tc : TC TD V) : Prop where
+  td_sub : ∀ k ∈ keys tc.td, k ∈ fields
+  nt_sub : ∀ k ∈ tc.nt.keys, k ∈ fields
+  cover : ∀ f ∈ fields, f ∈ keys tc.td ∨ f ∈ tc.nt.keys
+  disj : ∀ k ∈ keys tc.td, k ∉ tc.nt.keys
+
+/-- `tc[index]`: whatever the batch index does to the underlying tensordict, as long as it keeps the key set (reads do),
+the result is an instance of the same class around exactly that tensordict with EXACTLY the same non-tensor dict —
+non-tensor fields survive indexing unchanged. -/
+theorem getitem_keeps_fields (tdIndex : TD → Except Err TD) (tc : TC TD V) (t : TD) (hwf : WFk fields keys tc)
+    (hi : tdIndex tc.td = .ok t) (hk : ∀ k, k ∈ keys t ↔ k ∈ keys tc.td) :
+    getitemTc fields keys tdIndex .batch tc = .ok ⟨tc.cls, t, tc.nt⟩ := by
+  have hm : Matching fields (keys t) tc.nt := by
+    refine ⟨?_, ?_, hwf.nt_sub⟩
+    · intro kv hkv hin
+      exact absurd (List.mem_map.mpr ⟨kv, hkv, rfl⟩) (hwf.disj kv.1 ((hk kv.1).mp hin))
+    · intro k hkk
+      exact hwf.td_sub k ((hk k).mp hkk)
+  simp only [getitemTc, hi, fromTensordict_ok_of_matching hm, Except.map]
+  congr 2
+  have h1 : tc.nt.filter (fun kv => !(keys t).contains kv.1) = tc.nt := by
+    rw [List.filter_eq_self]
+    intro kv hkv
+    have hnot : kv.1 ∉ keys t := fun hin => hwf.disj kv.1 ((hk kv.1).mp hin) (List.mem_map.mpr ⟨kv, hkv, rfl⟩)
+    simpa using hnot
+  have h2 : fields.filter (fun f => !(keys t).contains f && !tc.nt.keys.contains f) = [] := by
+    rw [List.filter_eq_nil_iff]
+    intro f hf
+    simp only [Bool.and_eq_true, Bool.not_eq_eq_eq_not, Bool.not_true, not_and, Bool.not_eq_false]
+    intro h
+    rcases hwf.cover f hf with hc | hc
+    · have : (keys t).contains f = true := by simpa using (hk f).mpr hc
+      rw [this] at h
+      simp at h
+    · simpa using hc
+  rw [h1, h2]
+  simp
+
+/-- string keys are not indices of a tensorclass (fields are attributes) -/
+theorem getitem_rejects_keys (tdIndex : TD → Except Err TD) (tc : TC TD V) :
+    getitemTc fields keys tdIndex .key tc = .error .value := rfl
+
+/-- `tc[index] = value` with a tensorclass value: same class afterwards; the write itself is the tensordict's indexed
+write with `value._tensordict`; every non-tensor entry survives except the `None` placeholders of fields the value brings
+as tensordict entries; nothing is added to the non-tensor dict. -/
+theorem setitem_keeps_nontensor (tdSetAt : TD → Option TD → Except Err TD) (tc tc' v : TC TD V)
+    (h : setitemTc keys tdSetAt .batch tc (.tc v) = .ok tc') :
+    tc'.cls = tc.cls
+    ∧ tdSetAt tc.td (some v.td) = .ok tc'.td
+    ∧ (∀ kv ∈ tc.nt, kv.1 ∉ keys v.td → kv ∈ tc'.nt)
+    ∧ (∀ kv ∈ tc'.nt, kv ∈ tc.nt ∧ kv.1 ∉ keys v.td) := by
+  simp only [setitemTc, reduceCtorEq, ↓reduceIte] at h
+  split at h
+  · cases h
+  · cases ht : tdSetAt tc.td (some v.td) with
+    | error e => simp [ht, Except.map] at h
+    | ok t' =>
+      simp only [ht, Except.map] at h
+      injection h with h
+      subst h
+      refine ⟨rfl, rfl, ?_, ?_⟩
+      · intro kv hkv hnot
+        simp only [List.mem_filter]
+        exact ⟨hkv, by simpa using hnot⟩
+      · intro kv hkv
+        simp only [List.mem_filter] at hkv
+        exact ⟨hkv.1, by simpa using hkv.2⟩
+
+/-- … and the instance stays well formed when the tensordict write yields the union of the key sets (it writes the
+value's entries, creating those the destination lacks) and the value only brings declared fields -/
+theorem setitem_preserves_wf (tdSetAt : TD → Option TD → Except Err TD) (tc tc' v : TC TD V)
+    (hwf : WFk fields keys tc) (hv : ∀ k ∈ keys v.td, k ∈ fields)
+    (h : setitemTc keys tdSetAt .batch tc (.tc v) = .ok tc')
+    (hkeys : ∀ k, k ∈ keys tc'.td ↔ (k ∈ keys tc.td ∨ k ∈ keys v.td)) :
+    WFk fields keys tc' := by
+  obtain ⟨_, _, hkeep, hsub⟩ := setitem_keeps_nontensor keys tdSetAt tc tc' v h
+  refine ⟨?_, ?_, ?_, ?_⟩
+  · intro k hk
+    rcases (hkeys k).mp hk with h1 | h1
+    · exact hwf.td_sub k h1
+    · exact hv k h1
+  · intro k hk
+    obtain ⟨kv, hkv, rfl⟩ := List.mem_map.mp hk
+    exact hwf.nt_sub kv.1 (List.mem_map.mpr ⟨kv, (hsub kv hkv).1, rfl⟩)
+  · intro f hf
+    rcases hwf.cover f hf with h1 | h1
+    · exact Or.inl ((hkeys f).mpr (Or.inl h1))
+    · by_cases hfv : f ∈ keys v.td
+      · exact Or.inl ((hkeys f).mpr (Or.inr hfv))
+      · obtain ⟨kv, hkv, rfl⟩ := List.mem_map.mp h1
+        exact Or.inr (List.mem_map.mpr ⟨kv, hkeep kv hkv hfv, rfl⟩)
+  · intro k hk hnt
+    obtain ⟨kv, hkv, rfl⟩ := List.mem_map.mp hnt
+    have := hsub kv hkv
+    rcases (hkeys kv.1).mp hk with h1 | h1
+    · exact hwf.disj kv.1 h1 (List.mem_map.mpr ⟨kv, this.1, rfl⟩)
+    · exact this.2 h1
+
+/-- values that are neither tensorclasses, tensordicts, numbers nor tensors are rejected, and so is a tensorclass of
+another class whose member set differs -/
+theorem setitem_rejects_foreign (tdSetAt : TD → Option TD → Except Err TD) (k : ItemKind) (tc v : TC TD V) :
+    setitemTc keys tdSetAt k tc .other = .error .value
+    ∧ (v.cls ≠ tc.cls → sameKeySet (tc.nt.keys ++ keys tc.td) (v.nt.keys ++ keys v.td) = false →
+        setitemTc keys tdSetAt k tc (.tc v) = .error .value) := by
+  refine ⟨by cases k <;> simp [setitemTc], ?_⟩
+  intro hc hs
+  cases k <;> simp [setitemTc, hc, hs]
+
+end items
+
 -- non-vacuity: concrete, non-trivial values satisfying the hypotheses used above
 example : Matching ["x", "s", "o"] ["x", "s"] ([("o", none)] : NT Nat) := by
   refine ⟨?_, ?_, ?_⟩ <;> simp [NT.keys]
